@@ -155,3 +155,36 @@ func VH_C33_disconnect(answer int) {
 	}
 	vReach("C33.disconnected")
 }
+
+// VH_C33_awake: a slow awake phase. The client (no keep-alive ping in flight)
+// sleeps for 3 s, wakes up and sends its wake-up PINGREQ; the gateway answers
+// only after a symbolic delay of up to 2.5 keep-alive periods (the client
+// waits up to a minute for it). Between falling asleep and the PINGRESP the
+// client is asleep or awake, never active: it sends no keep-alive PINGREQ, and
+// the PINGRESP ends the Sleep call with nil.
+func VH_C33_awake() {
+	cfg, k := vKACfg(1)
+	w := vNewCW(cfg)
+	w.connect()
+	w.conn.autoPong = true
+	wait := vNondetDelay("sleep_at")
+	vAssume(vAnd(wait > 0, wait < k))
+	vSleepUntil(vNow() + wait)
+	d := 3 * time.Second
+	w.call(func() error { return w.c.Sleep(d) })
+	w.gwSends(pkts1.NewDisconnect(0))
+	w.conn.autoPong = false
+	asleepAt := vNow()
+	vAssume(w.c.state.Get() == util.StateAsleep)
+	awakeFor := vNondetDelay("awake_for")
+	vAssume(vAnd(awakeFor >= int64(50*time.Millisecond), awakeFor < 2*k+k/2))
+	vSleepUntil(asleepAt + int64(d) + awakeFor)
+	vAssert(w.c.state.Get() != util.StateActive, "C33.not_active_before_pingresp")
+	for _, p := range w.pings() {
+		vAssert(vOr(!p.keepalive, p.at <= asleepAt), "C33.no_keepalive_ping_while_awake")
+	}
+	w.gwSends(pkts1.NewPingresp())
+	vSleepUntil(vNow() + int64(100*time.Millisecond))
+	vReach("C33.slow_awake_done")
+	vAssert(vAnd(w.ret, w.err == nil), "C33.sleep_not_failed_by_keepalive")
+}
